@@ -376,10 +376,25 @@ def tiny_copy_scenario(r):
     if r.random() < 0.5:
         grad = FillSpec("linear", stops=st, units="objectBoundingBox", spread="pad", gt=None, geom=(0.0, 0.0, 1.0, 0.3))
     else:
-        grad = FillSpec("radial", stops=st, units="objectBoundingBox", spread="pad", gt=None, geom=(0.5, 0.5, 0.5), focal=None)
+        # circular, or elliptical / rotated (then the gradient carries a residual transform wrapper of its own)
+        grad = FillSpec("radial", stops=st, units="objectBoundingBox", spread="pad",
+                        gt=r.choice([None, "scale(1 0.5)", "matrix(0.8 0.3 -0.2 1.1 0.05 0.02)"]), geom=(0.5, 0.5, 0.5), focal=None)
     solid = FillSpec("solid", color=r.choice(PALETTE), index=None)
     donor = LayerSpec(cls, (big, 0, 0, big, 46, 46), solid)
     cx, cy = r.choice([(96, 96), (96, 8), (95, 50)])
+    if grad.kind == "radial" and r.random() < 0.6:
+        # the OverflowError fallback: a moderate ratio (the inverse reuse transform still fits 16.16 anywhere in the em)
+        # and an elliptical gradient far wider than the viewBox (radius 200 units: magnified it exceeds uint16), with the
+        # copy on its slope, 60 units from the centre along the squashed axis and well away from the font origin (where
+        # a lost or misplaced wrapper would cancel out)
+        ratio = r.choice([20, 25])
+        small = big / ratio
+        cx, cy = r.choice([(50, 40), (60, 30), (40, 50)])
+        squash = r.choice(["scale(1 0.5)", "scale(0.5 1)", "scale(1 0.4)"])
+        c0, c1 = (cx + 3, cy + 45) if squash.startswith("scale(1 ") else (cx - 35, cy + 3)
+        grad = FillSpec("radial", stops=st, units="userSpaceOnUse", spread="pad", geom=(c0 / 100, c1 / 100, 2.0), focal=None,
+                        gt=f"translate({c0} {c1}) {squash} translate({-c0} {-c1})")
+        grad.abs_geom = (0, 0, 100, 100)
     copy = LayerSpec(cls, (small, 0, 0, small, cx, cy), grad)
     if r.random() < 0.5:
         return [(CODEPOINTS[0], (0, 0, 100, 100), [donor, copy])]
